@@ -724,10 +724,16 @@ impl Callbacks for Dump {
         adts_v.sort_by_key(|d| defstr(tcx, *d));
         for did in adts_v.iter() {
             let adt = tcx.adt_def(*did);
+            let discrs: Vec<Option<u128>> = if adt.is_enum() {
+                adt.discriminants(tcx).map(|(_, d)| Some(d.val)).collect()
+            } else {
+                vec![None; adt.variants().len()]
+            };
             let variants: Vec<J> = adt
                 .variants()
                 .iter()
-                .map(|v| {
+                .enumerate()
+                .map(|(vi, v)| {
                     let fields: Vec<J> = v
                         .fields
                         .iter()
@@ -739,7 +745,13 @@ impl Callbacks for Dump {
                             ])
                         })
                         .collect();
-                    J::obj(vec![("name", J::Str(v.name.to_string())), ("fields", J::Arr(fields))])
+                    let mut vo = vec![("name", J::Str(v.name.to_string())), ("fields", J::Arr(fields))];
+                    if let Some(Some(d)) = discrs.get(vi) {
+                        if *d <= i128::MAX as u128 {
+                            vo.push(("discr", J::Int(*d as i128)));
+                        }
+                    }
+                    J::obj(vo)
                 })
                 .collect();
             lines.push(
